@@ -5,7 +5,7 @@ from . import C13
 
 META = {
     "level": "other",
-    "explanation": "Necessary structural conditions for build-after-parse to be accepted, canonical and idempotent (the thinnest claim of the set; idempotence itself is not decided): (R1) decode->encode closure: every form a decoder can return is accepted by a branch of its encoder -- Enum returns a table value (the very objects that key the encode table) or EnumInteger (an int, passed through), FlagsEnum returns a dict whose non-underscore keys are exactly the flag names its dict branch ORs back and whose flag test is `all bits of the mask present`, Mapping's tables are inverse, Flag returns a bool and builds one of two constants by truthiness, Hex/HexDump encode is the identity; (R2) private-key discipline: every fixed key that a parse-side method injects into a result container starts with '_', FlagsEnum._encode skips '_' keys, and Struct/Union/LazyStruct._build read the supplied object only under member names, so extra keys are ignored; (R3) Select builds alternatives in the order it parses them and Optional is Select(subcon, Pass); (R4) regenerated filler is parameter-only: the bytes that _build of Padded, Aligned, FixedSized, NullTerminated and Prefixed write besides the inner construct's output are terms over constructor parameters, computed lengths and constants -- never derived from the supplied object, time or randomness.",
+    "explanation": "Necessary structural conditions for build-after-parse to be accepted, canonical and idempotent (the thinnest claim of the set; idempotence itself is not decided): (R1) decode->encode closure: every form a decoder can return is accepted by a branch of its encoder -- Enum returns a table value (the very objects that key the encode table) or EnumInteger (an int, passed through), FlagsEnum returns a dict whose non-underscore keys are exactly the flag names its dict branch ORs back and whose flag test is `all bits of the mask present`, Mapping's tables are inverse, Flag returns a bool and builds one of two constants by truthiness, Hex/HexDump encode is the identity; (R2) private-key discipline: every fixed key that a parse-side method injects into a result container starts with '_', FlagsEnum._encode skips '_' keys, and Struct/Union/LazyStruct._build read the supplied object only under member names, so extra keys are ignored; (R3) Select builds alternatives in the order it parses them and Optional is Select(subcon, Pass); (R4) regenerated filler is parameter-only: the bytes that _build of Padded, Aligned, FixedSized, NullTerminated and Prefixed write besides the inner construct's output are terms over constructor parameters, computed lengths and constants -- never derived from the supplied object, time or randomness. (R5) a wrapper's _build hands the inner construct a constructor-supplied replacement instead of the object only when the object is None (Default, RawCopy) or equals it (Const); Rebuild is frozen as recomputed by design; (R6) the transforming macros decode and encode with an inverse pair over matching units (C10.R1/R2). (R7) every integer bits2integer/bytes2integer can return is accepted by integer2bits/integer2bytes: reference forms and exact two's-complement range of the helpers (shared with C10.R5).",
     "undecided": "Idempotence and canonicity as such, non-canonical inputs (non-minimal VarInts, arbitrary padding), the gallery formats: value-level, left to dynamic techniques.",
     "trusted_base": ["python ast (3.12)", "sa.summ summariser", "class hierarchy of the model (EnumInteger < int, Container < dict)"],
     "assumptions": [],
@@ -156,6 +156,9 @@ def run(ctx):
     from . import C10
     C10.check_macros(ctx, ("Bitwise", "Bytewise", "ByteSwapped", "BitsSwapped"), "C02.R6", "C02.R6", "C02.R6")
     ctx.floor("C02.R6", 12)
+    # what the parse-side helpers can return the build-side helpers accept: two's-complement range and bit order (shared with C10.R5)
+    from . import C10_helpers
+    C10_helpers.run(ctx, "C02.R7")
 
     ctl = control_model(
         "class Construct(object):\n    pass\nclass Subconstruct(Construct):\n    pass\n"
